@@ -9,6 +9,7 @@ use crate::stubs::*;
 use crate::*;
 use rosomaxa::algorithms::rl::{SlotAction, SlotFeedback, SlotMachine};
 use rosomaxa::hyper::{DynamicSelective, HeuristicSearchOperator, HyperHeuristic};
+use rosomaxa::population::SelectionPhase;
 use rosomaxa::prelude::*;
 use rosomaxa::termination::*;
 use rosomaxa::utils::{DefaultDistributionSampler, DistributionSampler, random_argmax};
@@ -536,17 +537,28 @@ fn run_terminations(ctx: &RunCtx, report: &mut Report) {
                     s
                 };
                 for len in 1..=(if dims == 1 { max_len } else { max_len - 2 }) {
+                  // variants: (scale of the fitness values, global mode or the phase pattern of a non-global criterion)
+                  let mut variants: Vec<(f64, Option<u32>)> = vec![(1., None), (1e-18, None), (1e12, None)];
+                  if dims == 1 && len <= 5 {
+                      for pattern in 0..(1u32 << len) {
+                          variants.push((1., Some(pattern)));
+                      }
+                  }
+                  for (scale, phases) in variants {
                     product(&vec![symbols.len(); len], |idx| {
                         report.add_count("termination_cases", 1);
                         report.add_count("min_variation_histories", 1);
                         report.add_count("evaluations", 1);
-                        let history: Vec<Vec<f64>> = idx.iter().map(|i| symbols[*i].clone()).collect();
-                        let t = MinVariation::<StubCtx, VObj, VSol, i32>::new_with_sample(window, threshold, true, 7);
+                        let history: Vec<Vec<f64>> = idx.iter().map(|i| symbols[*i].iter().map(|x| x * scale).collect()).collect();
+                        let t = MinVariation::<StubCtx, VObj, VSol, i32>::new_with_sample(window, threshold, phases.is_none(), 7);
                         let mut c = StubCtx::new(environment.clone());
                         for (g, fit) in history.iter().enumerate() {
                             c.statistics.generation = g;
                             c.ranked = vec![VSol { fit: fit.clone() }];
-                            let scen = json!({"part": "min-variation", "window": window, "threshold": threshold, "history": history, "generation": g});
+                            let exploiting = phases.is_none_or(|p| p >> g & 1 == 1);
+                            c.phase = if exploiting { SelectionPhase::Exploitation } else { SelectionPhase::Exploration };
+                            let scen = json!({"part": "min-variation", "window": window, "threshold": threshold, "history": history, "generation": g,
+                                              "scale": scale, "exploitation_pattern": phases});
                             let fired = match catch(|| t.is_termination(&mut c)) {
                                 Ok(f) => f,
                                 Err(p) => {
@@ -559,7 +571,7 @@ fn run_terminations(ctx: &RunCtx, report: &mut Report) {
                                 report.violation(Violation::new("termination:estimate-range", format!("MinVariation estimate {est}"), scen.clone()));
                             }
                             // reference
-                            let expected: Option<bool> = if g + 1 < window {
+                            let expected: Option<bool> = if g + 1 < window || !exploiting {
                                 Some(false)
                             } else {
                                 let win = &history[g + 1 - window..=g];
@@ -596,6 +608,7 @@ fn run_terminations(ctx: &RunCtx, report: &mut Report) {
                             }
                         }
                     });
+                  }
                 }
             }
         }
